@@ -235,6 +235,9 @@ def _r6(ctx):
         if fi.module.name != MS:
             continue
         helpers = {x.name for x in fi.node.body if isinstance(x, ast.FunctionDef)}
+        # private single-expression functions of the module are helpers of every function that calls them
+        helpers |= {f2.name for f2 in prog.functions.values() if f2.module is fi.module and f2.cls is None and f2.parent is None
+                    and f2.name.startswith("_") and f2 is not fi and len(f2.params) == 1}
         if not helpers:
             continue
         calls = {}
@@ -257,8 +260,8 @@ def _r6(ctx):
 
             def guarded(c):
                 par = getattr(c, "_parent", None)
-                while par is not None and not isinstance(par, ast.stmt):
-                    if isinstance(par, ast.IfExp):
+                while par is not None and not isinstance(par, (ast.FunctionDef, ast.Module)):
+                    if isinstance(par, (ast.IfExp, ast.If)):
                         t = norm_text(par.test)
                         if ("inf" in t or "isfinite" in t) and c.args and norm_text(c.args[0]) in t:
                             return True
@@ -578,6 +581,23 @@ def _r3(ctx):
                         r[0].value, atom=lambda e, p_=fm.params[0]: "R" if isinstance(e, ast.Name) and e.id == p_ else None)))
                 except NFUnsupported:
                     pass
+    if not any(nm.startswith("unit-amplitude") for nm, _, _, _ in forms):
+        # the closure may have been moved to module level: a private one-parameter function called by the distance method
+        stc_ = prog.cls(MS + ":_SegmentTransformer")
+        for n_, dm_ in prog.methods_of(stc_, inherited=False).items():
+            if not any(isinstance(x_, ast.Attribute) and x_.attr == "mid" for x_ in ast.walk(dm_.node)):
+                continue
+            for c_ in calls_in(dm_.node):
+                for k_ in prog.resolve_call(dm_, c_):
+                    fm = prog.functions.get(k_)
+                    if fm is not None and fm.cls is None and fm.parent is None and fm.name.startswith("_") and len(fm.params) == 1:
+                        r = [s for s in fm.node.body if isinstance(s, ast.Return)]
+                        if len(r) == 1 and not any(nm == "unit-amplitude mean stress helper %s" % fm.name for nm, _, _, _ in forms):
+                            try:
+                                forms.append(("unit-amplitude mean stress helper %s" % fm.name, fm, r[0], to_nf(
+                                    r[0].value, atom=lambda e, p_=fm.params[0]: "R" if isinstance(e, ast.Name) and e.id == p_ else None)))
+                            except NFUnsupported:
+                                pass
     tr = prog.func(MS + ":HaighDiagram.transform")
     d = [n for n in ast.walk(tr.node) if isinstance(n, ast.Dict)]
     if d:
